@@ -366,6 +366,15 @@ def r08_7(ctx):
                     c = a[3][1]
                     if c in "()\\":
                         assign[{"(": "A", ")": "B", "\\": "S"}[c]] = bool(v)
+                elif isinstance(v, int) and not isinstance(v, bool) and v in (40, 41, 92) and a[0] not in ("bin", "call"):
+                    # `match c { '(' => .., ')' => .., _ => .. }`: the arm taken
+                    for code, k_ in ((40, "A"), (41, "B"), (92, "S")):
+                        if code == v:
+                            assign[k_] = True
+                elif isinstance(v, tuple) and v and v[0] == "other" and a[0] not in ("bin", "call") and set(v[1]) & {40, 41, 92}:
+                    for code, k_ in ((40, "A"), (41, "B"), (92, "S")):
+                        if code in v[1]:
+                            assign[k_] = False
                 elif a == ("local", we):
                     assign["E"] = bool(v)
                 elif a[0] == "bin" and a[1] == "Eq" and a[3] == ("const", 0) and mentions(a[2], lambda x: x == ("local", gl)):
@@ -377,7 +386,8 @@ def r08_7(ctx):
                 if e[0] == "set" and e[1] == gl:
                     lvl = 1 if mentions(e[3], lambda x: x[0] == "bin" and x[1].startswith("Add")) else -1 if mentions(e[3], lambda x: x[0] == "bin" and x[1].startswith("Sub")) else 99
                 if e[0] == "set" and e[1] == we:
-                    esc_new = e[3][1] if e[3][0] == "const" else "?"
+                    v_ = e[3]
+                    esc_new = v_[1] if v_[0] == "const" else ("notE" if v_ == ("un", "Not", ("local", we)) else "E" if v_ == ("local", we) else "?")
                 if e[0] == "set" and e[1] == pl:
                     upd = True
             free = [k for k in ("A", "B", "S", "E") if k not in assign]
@@ -389,7 +399,7 @@ def r08_7(ctx):
                 rows += 1
                 lvl_ref = 1 if (full["A"] and not full["E"]) else -1 if (full["B"] and not full["E"]) else 0
                 esc_ref = full["S"] and not full["E"]
-                esc_got = full["E"] if esc_new is None else esc_new
+                esc_got = full["E"] if esc_new in (None, "E") else (not full["E"]) if esc_new == "notE" else esc_new
                 if lvl != lvl_ref:
                     bad.add("char=%s escaped=%s: depth change %+d (reference %+d)" % ("(" if full["A"] else ")" if full["B"] else "\\" if full["S"] else "other", full["E"], lvl, lvl_ref))
                 if esc_got != esc_ref:
